@@ -127,7 +127,20 @@ def run(ctx):
                 ctx.fail(c["site"], c, "returned NaN / infinite phases")
     # ---------------------------------------------------------------- purity and determinism
     def rand_op():
-        k = rng.choice(["qspp", "qspp", "completion", "p2l", "c2p", "p2c", "response", "newton", "angle_sequence", "ptlf", "roundtrip", "qsppP"])
+        k = rng.choice(["qspp", "qspp", "completion", "p2l", "c2p", "p2c", "response", "newton", "angle_sequence", "ptlf", "roundtrip", "qsppP",
+                        "response_edge", "qspp_infeasible", "qspp_infeasible"])
+        if k == "response_edge":
+            # a grid as numpy.arange(-1, 1.01, 0.05) produces: its last point is 1.0000000000000018
+            return {"call": "response", "adat": [hexf(-1.0), hexf(0.3), hexf(1.0000000000000018)], "phases": [hexf(rng.uniform(-3, 3)) for _ in range(rng.randint(1, 4))],
+                    "signal_operator": rng.choice(["Wx", "Wz"])}
+        if k == "qspp_infeasible":
+            d = rng.randint(1, 6)
+            c = [0.0] * (d + 1)
+            c[d] = rng.choice([1.01, 1.2, 1.5])
+            if rng.random() < 0.5 and d >= 2:
+                c[d - 2] = rng.choice([0.3, -0.4])
+            p = [float(x) for x in Q.cheb2mono([Fraction(*float(x).as_integer_ratio()) for x in c])]
+            return {"call": "qspp", "poly": [hexf(x) for x in p], "signal_operator": rng.choice(["Wx", "Wz"])}
         if k == "qspp":
             d = rng.randint(1, 8)
             p, _ = Q.cheb_family(rng, d, rng.uniform(0.2, 0.8), 0.15)
